@@ -106,6 +106,21 @@ func toolchainYamlStyled(style string, cfg [][]byte) (content string, write bool
 			sb.WriteString("    Windows: \"[y]*\"\n    windows:" + yamlBlock("      ", cfg[i+3]) + "    WINDOWS: \"[z]*\"\n")
 		}
 		return sb.String(), true
+	case "alias":
+		// the windows pattern is written as an alias of the unix one (YAML anchors): the same six patterns, windows = unix
+		var sb strings.Builder
+		sb.WriteString("patterns:\n")
+		names := []string{"anti_evasion", "anti_evasion_suffix", "anti_evasion_no_space_suffix"}
+		for i, n := range names {
+			sb.WriteString("  " + n + ":\n")
+			if len(cfg[i]) == 0 {
+				sb.WriteString(fmt.Sprintf("    unix: &p%d \"\"\n", i))
+			} else {
+				sb.WriteString(fmt.Sprintf("    unix: &p%d |\n      %s\n", i, cfg[i]))
+			}
+			sb.WriteString(fmt.Sprintf("    windows: *p%d\n", i))
+		}
+		return sb.String(), true
 	case "padded":
 		// patterns surrounded by blank lines and spaces inside the block scalar: the loader trims them
 		var sb strings.Builder
